@@ -567,8 +567,10 @@ func (v *verifier) processSignature(ctx context.Context, sigBlob []byte, envelop
 	// the signature does not name a verification plugin: nothing can process
 	// its extended critical attributes
 	if verificationPluginName == "" {
-		if attrs := getNonPluginExtendedCriticalAttributes(&outcome.EnvelopeContent.SignerInfo); len(attrs) > 0 {
-			return notation.ErrorVerificationInconclusive{Msg: fmt.Sprintf("extended critical attribute %q cannot be processed, the signature does not specify a verification plugin", attrs[0].Key)}
+		for _, attr := range outcome.EnvelopeContent.SignerInfo.SignedAttributes.ExtendedAttributes {
+			if attr.Critical {
+				return notation.ErrorVerificationInconclusive{Msg: fmt.Sprintf("extended critical attribute %q cannot be processed, the signature does not specify a verification plugin", attr.Key)}
+			}
 		}
 	}
 	return nil
